@@ -13,9 +13,12 @@ open GoDcp.HaMembership
 #print axioms ha_orphan_exleader_refuted
 #print axioms observe_stopped
 #print axioms ha_orphan_follower_refuted
+#print axioms ha_orphan_follower_fixed
 #print axioms hbFollow_noleader
 #print axioms ha_remove_by_name_refuted
 #print axioms ha_handover_totals_refuted
 #print axioms ha_release_panics_refuted
 #print axioms lead_keeps_services
 #print axioms orphan_stays
+#print axioms hbFollow_keeps_leader
+#print axioms ha_partition_heals
